@@ -94,6 +94,13 @@ def _r1(ck: Checker, prog: Program):
     if len(acc_names) != 1:
         raise AnalysisError(f"{q}: expected one accumulator in the loop over the windows, found {acc_names}")
     acc_name = acc_names[0]
+    # values named before the loop (number of windows, FFT length, ...)
+    for st in f.node.body[:f.node.body.index(lp)]:
+        if isinstance(st, ast.Assign) and len(st.targets) == 1 and isinstance(st.targets[0], ast.Name) and st.targets[0].id != acc_name:
+            try:
+                ex.T.env[st.targets[0].id] = ex.T.tr(st.value)
+            except AnalysisError:
+                pass
     P = sp.Symbol("P", positive=True)
     ex.T.env[acc_name] = P
     ex.run(lp.body)
